@@ -354,6 +354,14 @@ func (r *Run) ParallelN(workers, nBatches int, f func(l *Local)) {
 
 // Finish writes the result file consumed by the driver.
 func (r *Run) Finish(minNontrivial int64) {
+	if n := decoyCalls.Load(); n > 0 {
+		msg := fmt.Sprintf("a handler that was wrapped by the middleware but never used by the harness was invoked %d time(s): a later Wrap changed what an earlier Wrap returned", n)
+		if r.Prop == "C11" {
+			r.Violate("wrap-not-pure", "reference-run", msg, nil)
+		} else {
+			r.Inconclusive(msg)
+		}
+	}
 	r.mu.Lock()
 	defer r.mu.Unlock()
 	distinct := r.nontrivN.Load() + r.nontriv.size()
